@@ -737,3 +737,30 @@ Proof.
   - contradiction H2; reflexivity.
   - contradiction H1; reflexivity.
 Qed.
+
+(** ---- the same typed decoder over the XML and JSON readers (TextFmt.v), in terms of the
+    number of raw elements of the cursor the reader builds from the document *)
+From KV Require TextLex TextFmt TextFmtProofs.
+
+Theorem kmip_unmarshal_xml_terminates : forall G root doc cut,
+  (root = "kmip.RequestMessage" \/ root = "kmip.ResponseMessage")%string ->
+  (forall c, TextFmt.xml_cursor G doc cut = Ok c -> (B_kmip + K_ELEM * csize c <= FUEL)%nat) ->
+  kmip_unmarshal_xml G root doc cut <> OutOfFuel.
+Proof.
+  intros G root doc cut Hroot Hsz. unfold kmip_unmarshal_xml.
+  destruct (TextFmt.xml_cursor G doc cut) as [c| | |] eqn:E; cbn [bind]; try discriminate.
+  - apply kmip_dec_terminates; [apply text_fmt_total, TextFmtProofs.xml_fmt_total | exact Hroot | apply Hsz; reflexivity].
+  - exfalso. unfold TextFmt.xml_cursor in E. destruct doc; [discriminate|].
+    match type of E with c_open ?a ?b = _ => pose proof (c_open_safe a b) as Ho end.
+    rewrite E in Ho. exact Ho.
+Qed.
+
+Theorem kmip_unmarshal_json_terminates : forall G root doc,
+  (root = "kmip.RequestMessage" \/ root = "kmip.ResponseMessage")%string ->
+  (forall c, TextFmt.json_cursor G doc = Ok c -> (B_kmip + K_ELEM * csize c <= FUEL)%nat) ->
+  kmip_unmarshal_json G root doc <> OutOfFuel.
+Proof.
+  intros G root doc Hroot Hsz. unfold kmip_unmarshal_json.
+  destruct (TextFmt.json_cursor G doc) as [c| | |] eqn:E; cbn [bind]; try discriminate.
+  apply kmip_dec_terminates; [apply text_fmt_total, TextFmtProofs.json_fmt_total | exact Hroot | apply Hsz; reflexivity].
+Qed.
